@@ -1133,6 +1133,8 @@ def run(ctx):
         "the refinement process itself (which node lists / areas / cells arise) is not modelled here: the model starts from the observed refinement state",
     ]
     drv = ctx.driver("drv_c04")
+    import dimwise_gen
+    dimwise_gen.run(ctx, None, "C04")      # translator tie of the dimension-wise logic (see dimwise_gen.py); this harness is the search
     run_unit_1d(ctx, drv, 40 if not thorough else 300)
     # corpus: witnesses of the known findings (and any minimised past failure) always run first
     import glob
